@@ -146,6 +146,72 @@ def spec_withoptions():
     return same_as(c, m)
 
 
+def spec_computation():
+    """the body's value; fails iff the body fails or (effects being on) the effect fails"""
+    c, e = ev("Computation", "evaluatable"), ev("Computation", "effect")
+    return (lambda v: z3.And(ok(c), v == val(c))), z3.Or(z3.Not(ok(c)), z3.Not(T.TFok(e, val(c), O1)))
+
+
+def _mk(cls, names):
+    return z3.Function("mk_" + cls + "#" + ",".join(names), *([T.Val] * len(names)), T.Ev)
+
+
+MK_WO = _mk("WithOptions", ("evaluatable", "force", "options"))
+MK_CA = _mk("Cached", ("cache", "evaluatable"))
+MK_LG = _mk("Logged", ("evaluatable", "level", "log_first", "msg", "name"))
+MK_CO = _mk("Computation", ("effect", "evaluatable"))
+MK_AP = _mk("Apply", ("evaluatable", "func"))
+
+
+def tower_contracts():
+    """class contracts of the temporaries Dataset._composed builds, each the C05 specification PROVED for that class (groups WithOptions:C05, Cached:C05,
+    Logged:C05, Computation:C05, Apply:C05), restated for the mk_<Class>(fields) terms the executor uses for them"""
+    c, f, P, x, y, z, w, g = z3.Consts("c!t f!t P!t x!t y!t z!t w!t g!t", T.Val)
+    o = z3.Const("o!t", T.Opt)
+    out = []
+
+    def same(t, child, oo, vars_):
+        return [z3.ForAll(vars_ + [o], z3.And(T.EVok(t, o) == T.EVok(child, oo), z3.Implies(T.EVok(t, o), T.EVval(t, o) == T.EVval(child, oo))), patterns=[T.EVok(t, o)]),
+                z3.ForAll(vars_ + [o], z3.Implies(T.EVok(t, o), T.EVval(t, o) == T.EVval(child, oo)), patterns=[T.EVval(t, o)])]
+    t = MK_WO(c, f, P)
+    m = z3.If(f == T.TRUE, T.mix(o, T.opt_of_val(P)), T.mix(T.opt_of_val(P), o))
+    out += same(t, T.ev_of(c), m, [c, f, P])
+    out += same(MK_CA(x, c), T.ev_of(c), o, [x, c])
+    out += same(MK_LG(c, x, y, z, w), T.ev_of(c), o, [c, x, y, z, w])
+    # Computation: the body's value when it returns; it returns whenever the body does and the effect does not fail
+    t = MK_CO(g, c)
+    out.append(z3.ForAll([g, c, o], z3.And(z3.Implies(T.EVok(t, o), z3.And(T.EVok(T.ev_of(c), o), T.EVval(t, o) == T.EVval(T.ev_of(c), o))),
+                                          z3.Implies(z3.And(T.EVok(T.ev_of(c), o), T.TFok(T.ev_of(g), T.EVval(T.ev_of(c), o), o)), T.EVok(t, o))), patterns=[T.EVok(t, o)]))
+    # Apply
+    t = MK_AP(c, f)
+    a = args1(T.EVval(T.ev_of(c), o))
+    fv = T.EVval(T.ev_of(f), o)
+    allok = z3.And(T.EVok(T.ev_of(c), o), T.EVok(T.ev_of(f), o), T.call_ok(fv, a))
+    out.append(z3.ForAll([c, f, o], z3.And(T.EVok(t, o) == allok, z3.Implies(allok, T.EVval(t, o) == T.call_val(fv, a))), patterns=[T.EVok(t, o)]))
+    return out
+
+
+def spec_dataset():
+    """a dataset evaluates to callback(implementation) - both evaluated under the caller's options laid over the default options and overlaid by the
+    pre-set options - whatever the cache holds (sound backend), with effects not changing the value (effects that do not fail: region F15)"""
+    ovl, cb = ev("Dataset", "overloads"), ev("Dataset", "callback")
+    D = z3.Function("fld!Dataset.default_options", T.Ev, T.Opt)(SELF)
+    P = z3.Function("fld!Dataset.options", T.Ev, T.Opt)(SELF)
+    oo = T.mix(T.mix(D, O1), P)
+    a = args1(val(ovl, oo))
+    allok = z3.And(ok(ovl, oo), ok(cb, oo), T.call_ok(val(cb, oo), a))
+    return (lambda v: z3.And(allok, v == T.call_val(val(cb, oo), a))), z3.Not(allok)
+
+
+def _effects_total():
+    e = z3.Const("e!tot", T.Ev)
+    v = z3.Const("v!tot", T.Val)
+    o = z3.Const("o!tot", T.Opt)
+    return [z3.ForAll([e, v, o], T.TFok(e, v, o), patterns=[T.TFok(e, v, o)])]
+
+
+EXTRA_HYPS = {"Dataset": lambda: tower_contracts() + _effects_total()}
+
 SPECS = {
     "Apply": spec_apply, "Bind": spec_bind, "Switch": lambda: spec_switch("Switch"), "Overloaded": lambda: spec_switch("Overloaded"),
     "CaseWhen": spec_casewhen, "Coalesce": spec_coalesce, "Iter": lambda: spec_seq("Iter", "evaluatables"),
@@ -153,6 +219,7 @@ SPECS = {
     "FunctionApplication": lambda: spec_funapp("FunctionApplication"), "PartialApplication": lambda: spec_funapp("PartialApplication"),
     "WithOptions": spec_withoptions, "Cached": lambda: same_as(ev("Cached", "evaluatable")),
     "Logged": lambda: same_as(ev("Logged", "evaluatable")), "PipelineStep": lambda: same_as(ev("PipelineStep", "step")),
+    "Computation": spec_computation, "Dataset": spec_dataset,
 }
 
 
@@ -166,7 +233,7 @@ def spec_vcs(repo, ci):
     if u:
         return [], [(f"{C}.evaluate", sorted(set(u)))]
     okspec, errspec = SPECS[C]()
-    hyp = base_noregion(ci)
+    hyp = base_noregion(ci) + (EXTRA_HYPS[C]() if C in EXTRA_HYPS else [])
     vcs = []
     for i, p in enumerate(ps):
         if p.kind == "ok":
